@@ -1289,3 +1289,20 @@ package state
 //@ ensures[index-max-merged] err == nil ==> idxVal("system-metadata") == ite(old(idxVal("system-metadata")) >= entry.ModifyIndex, old(idxVal("system-metadata")), entry.ModifyIndex)
 //@ ensures[other-rows-untouched] forall k string :: strLower(k) != strLower(entry.Key) ==> T_system_metadata(k) == old(T_system_metadata(k))
 //@ modifies T.system-metadata, T.index
+
+//@ file feature_gate.go
+// ---- C10: the feature-gate conditional write. Both expected indexes fence the write (index 0 = singleton absent);
+// it reports true iff it committed, and a mismatch on either index changes nothing.
+//@ pure fgPolicyIdx() uint64 = ite(T_feature_gate_policy() == nil, 0, T_feature_gate_policy().ModifyIndex)
+//@ pure fgStatusIdx() uint64 = ite(T_feature_gate_status() == nil, 0, T_feature_gate_status().ModifyIndex)
+//@ func Store.FeatureGateUpdate
+//@ props C10
+//@ results ok, err
+//@ ensures[applied-only-if-both-indexes-match] ok ==> old(fgPolicyIdx()) == req.ExpectedPolicyIndex && old(fgStatusIdx()) == req.ExpectedStatusIndex
+//@ ensures[mismatch-unchanged] req != nil && req.Status != nil && !(old(fgPolicyIdx()) == req.ExpectedPolicyIndex && old(fgStatusIdx()) == req.ExpectedStatusIndex) ==> !ok && err == nil && T_feature_gate_policy() == old(T_feature_gate_policy()) && T_feature_gate_status() == old(T_feature_gate_status()) && commits() == old(commits())
+//@ ensures[matched-applies] err == nil && req != nil && req.Status != nil && old(fgPolicyIdx()) == req.ExpectedPolicyIndex && old(fgStatusIdx()) == req.ExpectedStatusIndex ==> ok
+//@ ensures[reported-iff-committed] commits() == ite(ok, old(commits()) + 1, old(commits()))
+//@ ensures[ok-status-stored] ok ==> T_feature_gate_status() != nil && T_feature_gate_status().ModifyIndex == idx && T_feature_gate_status().RegistryDigest == req.Status.RegistryDigest && T_feature_gate_status().PolicyIndex == ite(req.Policy != nil, idx, req.ExpectedPolicyIndex) && T_feature_gate_status().CreateIndex == ite(old(T_feature_gate_status()) == nil, idx, old(T_feature_gate_status().CreateIndex))
+//@ ensures[ok-policy-stored] ok && req.Policy != nil ==> T_feature_gate_policy() != nil && T_feature_gate_policy().ModifyIndex == idx && T_feature_gate_policy().CreateIndex == ite(old(T_feature_gate_policy()) == nil, idx, old(T_feature_gate_policy().CreateIndex))
+//@ ensures[ok-without-policy-keeps-policy] ok && req.Policy == nil ==> T_feature_gate_policy() == old(T_feature_gate_policy()) && T_feature_gate_policy() != nil
+//@ ensures[err-not-ok] err != nil ==> !ok
